@@ -219,3 +219,30 @@ func ReturnOperand(r *ssa.Return, i int) ssa.Value {
 	}
 	return v
 }
+
+// nonNilOperands: the values v can take, looking through phis and dropping nil constants
+// (a result variable assigned in several branches of an inlined / early-exit helper).
+func nonNilOperands(v ssa.Value) []ssa.Value {
+	var out []ssa.Value
+	seen := map[ssa.Value]bool{}
+	var walk func(x ssa.Value, d int)
+	walk = func(x ssa.Value, d int) {
+		x = stripConv(x)
+		if seen[x] || d > 6 {
+			return
+		}
+		seen[x] = true
+		if ph, ok := x.(*ssa.Phi); ok {
+			for _, e := range ph.Edges {
+				walk(e, d+1)
+			}
+			return
+		}
+		if isNilConst(x) {
+			return
+		}
+		out = append(out, x)
+	}
+	walk(v, 0)
+	return out
+}
